@@ -5,10 +5,13 @@
   `getcontrols`, `injectbounce`), tied to the source by the differential harness
   `harness/c14_bounce.c`.  The reader's side (`paras`, `governing`, `namedRecipient`, `recipLine`,
   `sanit`) is `Nq.BounceSpec`; compiled, it is the oracle of `./check C14`.
-  Only property theorems live here.  The daemon-level "once" (messdone/pqdone scheduling, crash
-  windows) is stated over the `Daemon` model in C03/C04; here it is proved for `injectbounce` itself.
+  Only property theorems live here.  "Once" is proved twice: for `injectbounce` itself (`C14_once` …)
+  and, in the last section (`C14_daemon_*`), at DAEMON level — for every event sequence accepted by
+  the monitor `Nq.Daemon` of C03/C04 (any interleaving of messages, reports, failing calls, crashes
+  and restarts), with the history layer `Nq.BounceDaemon` and the bridge to `inject`/`bounceOf`.
 -/
 import Nq.Lemmas.Bounce
+import Nq.Lemmas.BounceDaemon
 
 namespace Nq.Props.C14
 open Nq Nq.Bounce Nq.BounceSpec Nq.Lemmas.Bounce
@@ -492,5 +495,298 @@ example : decideBounce [120, 45, 64, 104, 45, 64, 91, 93] = .single [120, 45, 64
 example : decideBounce [] = .double := by decide
 example : decideBounce [35, 64, 91, 93] = .discard := by decide
 example : decideBounce [45, 64, 91, 93] = .double := by decide
+
+/-! ### Once, at daemon level: every event sequence the monitor `Nq.Daemon` accepts
+
+`Daemon.accept` is the acceptor of C03/C04 (read-only here); `Nq.BounceDaemon.gaccept` adds history
+only (it accepts exactly the same sequences: `C14_daemon_history_total`).  `noted` = paragraphs
+appended for the message (one entry per `appendBounce`, i.e. per `addbounce()` call), `inFile` = those
+in the current `bounce/<m>`, `bounced` = those whose file was unlinked after a successful injection,
+`committed` = the successful injections (envelope, text, file content, paragraphs) that were followed
+by the unlink, `dropped` = paragraphs discarded with the file of a `#@[]` message. -/
+
+section DaemonLevel
+open Nq.BounceDaemon Nq.Lemmas.BD
+
+/-- The history layer refuses nothing and changes nothing: the sequences it accepts are exactly the
+monitor's, with the same monitor state. -/
+theorem C14_daemon_history_total (cfg : Daemon.Cfg) (evs : List Daemon.Ev) (s : Daemon.St) :
+    Daemon.acceptAll cfg {} evs = some s ↔ ∃ g, gacceptAll cfg ginit evs = some (s, g) := by
+  constructor
+  · intro h; exact gacceptAll_total cfg evs {} (fun _ => {}) s h
+  · rintro ⟨g, h⟩; exact gacceptAll_base cfg evs _ _ s g h
+
+/-- **(a) `bounce/<m>` is unlinked only right after a successful injection of exactly its content**
+(strengthens `C03_bounce_removed` by content equality, on the trace itself): whenever the monitor
+accepts `unlinkBounce m` after the history `evs`, either the message's sender is `#@[]` (the
+documented discard), or `evs = pre ++ bounceInject m true env body :: post` where `post` contains no
+event on `bounce/<m>` (no append, no further injection, no crash rewrite, no unlink), the file had
+at the injection exactly the content `file` that is unlinked now (and named the same records), the
+queued text `body` contains `file`, and `env` is the bounce envelope of the message's sender. -/
+theorem C14_daemon_unlink_after_inject (cfg : Daemon.Cfg) (evs : List Daemon.Ev) (s s' : Daemon.St) (m : Nat)
+    (hacc : Daemon.acceptAll cfg {} evs = some s) (hu : Daemon.accept cfg s (.unlinkBounce m) = some s') :
+    ∃ info file, (s.msg m).info = some info ∧ (s.msg m).bounce = some file ∧
+      ((senderOf info = DBSENDER ∧ (s'.msg m).discarded = true) ∨
+       (senderOf info ≠ DBSENDER ∧ ∃ pre post env body s1,
+          evs = pre ++ Daemon.Ev.bounceInject m true env body :: post ∧
+          Daemon.acceptAll cfg {} pre = some s1 ∧ (s1.msg m).bounce = some file ∧ (s1.msg m).inFile = (s.msg m).inFile ∧
+          post.all (fun e => !bounceEvent m e) = true ∧
+          Daemon.isInfix file body = true ∧ env = Daemon.bounceEnvelope cfg (senderOf info))) := by
+  obtain ⟨g, hg⟩ := gacceptAll_total cfg evs {} (fun _ => {}) s hacc
+  have hG := (greach_inv cfg s g ⟨evs, hg⟩).2 m
+  simp only [Daemon.accept] at hu
+  split at hu
+  · cases hu
+  · split at hu
+    · rename_i info file hinfo hfile
+      refine ⟨info, file, hinfo, hfile, ?_⟩
+      split at hu
+      · split at hu
+        · rename_i hs; cases hu
+          left
+          refine ⟨hs, ?_⟩
+          rw [Daemon.St.msg_upd]; simp
+        · rename_i hs
+          split at hu
+          · rename_i hl
+            right
+            refine ⟨hs, ?_⟩
+            obtain ⟨x, hx, hxf, hxp, _⟩ := hG.c5 hl (by show (s.msg m).bounce ≠ none; rw [hfile]; simp)
+            have hxf' : file = x.file := by
+              have : (s.msg m).bounce = some x.file := hxf
+              rw [hfile] at this; cases this; rfl
+            have hok := hG.c6 x (hG.c5a x hx)
+            rcases last_trace cfg m x evs _ _ s g hg hx with ⟨h0, _⟩ | ⟨pre, post, s1, g1, he, hpre, hin, hf, hp, hpost⟩
+            · cases h0
+            · obtain ⟨f1, hf1⟩ := inject_bounce_some cfg s1 m true x.env x.body hin
+              refine ⟨pre, post, x.env, x.body, s1, he, gacceptAll_base cfg pre _ _ s1 g1 hpre, ?_, ?_, hpost, ?_, ?_⟩
+              · rw [hf1] at hf ⊢; rw [hxf', hf]; rfl
+              · rw [← hp]; exact hxp
+              · rw [hxf']; exact hok.inf
+              · rw [hok.env, hok.sender info hinfo]
+          · cases hu
+      · cases hu
+    · cases hu
+
+/-- **(b) Every appended paragraph is accounted for exactly once**, in every reachable state, for
+every message, counted with multiplicity (the same record can fail again after a crash that lost its
+mark, and is then appended again): the number of times a paragraph for record `x` was appended equals
+the number of its copies still in `bounce/<m>`, plus those in committed bounces (injection succeeded
+and the file was unlinked), plus those discarded with the bounce file of a `#@[]` message.  The
+committed copies are exactly the paragraphs of the committed injections; paragraphs are dropped only
+under the documented discard; paragraphs still in the file keep the message in the queue (retry). -/
+theorem C14_daemon_exactly_once (cfg : Daemon.Cfg) (s : Daemon.St) (g : Ghost) (hr : GReach cfg s g) (m : Nat) :
+    (∀ x, (s.msg m).noted.count x = (s.msg m).inFile.count x + (s.msg m).bounced.count x + (g m).dropped.count x) ∧
+    (s.msg m).bounced = ((g m).committed.map (·.paras)).flatten ∧
+    ((g m).dropped ≠ [] → (s.msg m).discarded = true) ∧
+    ((s.msg m).inFile ≠ [] → (s.msg m).bounce.isSome = true ∧ (s.msg m).info.isSome = true) := by
+  obtain ⟨hI, hG⟩ := greach_inv cfg s g hr
+  have h := hG m
+  refine ⟨h.c1, h.c2, h.c8, ?_⟩
+  intro hne
+  have hb : (s.msg m).bounce ≠ none := fun hb => hne ((hI.msgs m).k5 hb)
+  have hbs : (s.msg m).bounce.isSome = true := by
+    cases hbb : (s.msg m).bounce with
+    | none => exact absurd hbb hb
+    | some _ => rfl
+  refine ⟨hbs, ?_⟩
+  cases ht : (s.msg m).todo with
+  | none => exact (hI.msgs m).k6 ht (Or.inr (Or.inr hbs))
+  | some e =>
+    have : (bv (s.msg m)).todo = true := by show (s.msg m).todo.isSome = true; rw [ht]; rfl
+    exact absurd (h.t0 this).2.2.1 hne
+
+/-- **(b) What a committed bounce is**: every injection after which the monitor accepted the unlink
+went, with the envelope `bounceEnvelope` prescribes for the sender stored in `info/<m>` (never for a
+`#@[]` message), carried the whole bounce file of that moment inside its text, and that file names one
+record per appended text; unless a machine crash rewrote `bounce/<m>` (the documented exemption
+`lost`), the file was the concatenation of the appended texts, so each of them is inside the notice. -/
+theorem C14_daemon_committed (cfg : Daemon.Cfg) (s : Daemon.St) (g : Ghost) (hr : GReach cfg s g) (m : Nat)
+    (x : Sent) (hx : x ∈ (g m).committed) :
+    x.sender ≠ DBSENDER ∧ x.env = Daemon.bounceEnvelope cfg x.sender ∧ Daemon.isInfix x.file x.body = true ∧
+    x.paras.length = x.parts.length ∧
+    (∀ info, (s.msg m).info = some info → x.sender = senderOf info) ∧
+    ((s.msg m).lost = false → x.parts ≠ [] ∧ x.file = fileOf x.parts ∧ ∀ p ∈ x.parts, Daemon.isInfix p x.body = true) := by
+  have h := (greach_inv cfg s g hr).2 m
+  have hok := h.c6 x (h.c6a x hx)
+  refine ⟨hok.notdb, hok.env, hok.inf, hok.len, hok.sender, ?_⟩
+  intro hl
+  obtain ⟨h1, h2⟩ := hok.intact hl
+  refine ⟨h1, h2, fun p hp => isInfix_trans p x.file x.body ?_ hok.inf⟩
+  rw [h2]; exact isInfix_fileOf x.parts p hp
+
+/-- **(b) Nothing is sent twice in two committed bounces, nothing is dropped when the message leaves
+the queue**: once `info/<m>` is gone (after which qmail-clean removes the message) no paragraph is
+left in a file, and — unless the message's own sender was `#@[]` (discard) — every record has exactly
+as many copies in committed bounces as paragraphs were appended for it: in particular a paragraph
+appended once is in exactly one committed bounce. -/
+theorem C14_daemon_left_queue (cfg : Daemon.Cfg) (s : Daemon.St) (g : Ghost) (hr : GReach cfg s g) (m : Nat)
+    (ht : (s.msg m).todo = none) (hi : (s.msg m).info = none) :
+    (s.msg m).inFile = [] ∧
+    (∀ x, (s.msg m).noted.count x = (((g m).committed.map (·.paras)).flatten).count x + (g m).dropped.count x) ∧
+    ((s.msg m).discarded = false → ∀ x, (s.msg m).noted.count x = (((g m).committed.map (·.paras)).flatten).count x) := by
+  obtain ⟨hI, hG⟩ := greach_inv cfg s g hr
+  have h := hG m
+  have hb : (s.msg m).bounce = none := by
+    cases hbb : (s.msg m).bounce with
+    | none => rfl
+    | some b =>
+      have := (hI.msgs m).k6 ht (Or.inr (Or.inr (by rw [hbb]; rfl)))
+      rw [hi] at this; cases this
+  have hf : (s.msg m).inFile = [] := (hI.msgs m).k5 hb
+  have hc : ∀ x, (s.msg m).noted.count x = (((g m).committed.map (·.paras)).flatten).count x + (g m).dropped.count x := by
+    intro x
+    have h1 := h.c1 x
+    have h2 : (bv (s.msg m)).bounced = _ := h.c2
+    have h1' : (s.msg m).noted.count x = (s.msg m).inFile.count x + (s.msg m).bounced.count x + (g m).dropped.count x := h1
+    have h2' : (s.msg m).bounced = ((g m).committed.map (·.paras)).flatten := h2
+    rw [hf, h2'] at h1'
+    simpa using h1'
+  refine ⟨hf, hc, ?_⟩
+  intro hd x
+  have hdr : (g m).dropped = [] := by
+    cases hdd : (g m).dropped with
+    | nil => rfl
+    | cons a t =>
+      have : (s.msg m).discarded = true := h.c8 (by rw [hdd]; simp)
+      rw [hd] at this; cases this
+  rw [hc x, hdr]; simp
+
+/-- At any time, a record is named in committed bounces at most as often as a paragraph was appended
+for it (no invention, no double sending through two committed bounces). -/
+theorem C14_daemon_sent_at_most_appended (cfg : Daemon.Cfg) (s : Daemon.St) (g : Ghost) (hr : GReach cfg s g) (m : Nat)
+    (x : Daemon.Ch × Nat) : (((g m).committed.map (·.paras)).flatten).count x ≤ (s.msg m).noted.count x := by
+  obtain ⟨h1, h2, _, _⟩ := C14_daemon_exactly_once cfg s g hr m
+  rw [← h2, h1 x]; omega
+
+/-- **(b) A failed injection keeps the record (retry)**: after `bounceInject m false …` the bounce
+file and the bookkeeping are unchanged and an `unlinkBounce m` is refused — by (a) it stays refused
+until an injection succeeds. -/
+theorem C14_daemon_retry (cfg : Daemon.Cfg) (s s' : Daemon.St) (m : Nat) (env body : Bytes)
+    (h : Daemon.accept cfg s (.bounceInject m false env body) = some s') :
+    (s'.msg m).bounce = (s.msg m).bounce ∧ (s'.msg m).inFile = (s.msg m).inFile ∧ (s'.msg m).noted = (s.msg m).noted ∧
+    (s'.msg m).bounced = (s.msg m).bounced ∧ (s'.msg m).bounce.isSome = true ∧
+    Daemon.accept cfg s' (.unlinkBounce m) = none := by
+  simp only [Daemon.accept] at h
+  split at h
+  · cases h
+  · rename_i hcl
+    split at h
+    · rename_i info file hinfo hfile
+      split at h
+      · rename_i hg; cases h
+        have hm : ((s.upd m fun ms => { ms with lastInject := false }).msg m) = { s.msg m with lastInject := false } := by
+          rw [Daemon.St.msg_upd]; simp
+        refine ⟨by rw [hm], by rw [hm], by rw [hm], by rw [hm], by rw [hm, hfile]; rfl, ?_⟩
+        have hc : (s.upd m fun ms => { ms with lastInject := false }).clean = s.clean := rfl
+        have hne : ¬ (info.drop 1).dropLast = [35, 64, 91, 93] := hg.2.2.2.1
+        simp [Daemon.accept, hm, hinfo, hfile, hc, hcl]
+        intro _ _ _; simpa using hne
+      · cases h
+    · cases h
+
+/-- **(c) What `injectbounce` queues is what the monitor demands**: for every configuration, date
+line, bounce file, original message and sender, the notice built by `bounceOf` (which `drv_c14`
+compares byte for byte with the real `injectbounce()` output) contains the bounce file, carries the
+envelope `Daemon.bounceEnvelope` prescribes, and is never built for a `#@[]` message — i.e. the
+`(env, body)` of a monitor event `bounceInject m true env body` may be `bounceOf` of the file. -/
+theorem C14_daemon_inject_guard (dcfg : Daemon.Cfg) (bcfg : Cfg) (hdb : dcfg.doublebounceto = bcfg.doublebounceto)
+    (date bf sender mess : Bytes) (q : Msg)
+    (h : bounceOf bcfg date bf { sender := sender, rcpts := [], body := mess } = some q) :
+    injectGuard dcfg sender bf (envBytes q) q.body = true := by
+  obtain ⟨h1, h2, h3⟩ := bounceOf_guard dcfg bcfg hdb date bf sender mess [] q h
+  exact (injectGuard_iff dcfg sender bf (envBytes q) q.body).2 ⟨h1, h2, h3⟩
+
+/-- **(c) Every behaviour of the `injectbounce` model is a behaviour the monitor accepts** — all ten
+fault points, every sender whose VERP base is not `#@[]` unless it is `#@[]` itself: from any monitor
+state in which qmail-send calls `injectbounce(m)` the events of the call (`injectEvents`: the
+injection with `bounceOf`'s envelope and text, then the unlink if the model removed the file) are
+accepted, and the monitor's `bounce/<m>` afterwards is the model's. -/
+theorem C14_daemon_inject_accepted (dcfg : Daemon.Cfg) (bcfg : Cfg) (hdb : dcfg.doublebounceto = bcfg.doublebounceto)
+    (date : Bytes) (m qp : Nat) (f : Fault) (sender bf mess : Bytes) (s : Daemon.St)
+    (hclean : s.clean = none) (ht : (s.msg m).todo = none) (hl : (s.msg m).loc = none) (hrm : (s.msg m).rem = none)
+    (hi : (s.msg m).info = some (70 :: sender ++ [0])) (hb : (s.msg m).bounce = some bf)
+    (hv : verpBase sender = DBSENDER → sender = DBSENDER) :
+    ∃ s', Daemon.acceptAll dcfg s (injectEvents m f sender (some bf) (inject bcfg date m qp f sender (some bf) mess)) = some s' ∧
+      (s'.msg m).bounce = (inject bcfg date m qp f sender (some bf) mess).bounce :=
+  inject_accepted dcfg bcfg hdb date m qp f sender bf mess s ⟨hclean, ht, hl, hrm, hi, hb⟩ hv
+
+/-- The excluded sender `#@[]-@[]` (complement of the hypothesis above; a gap of the MONITOR, not of
+qmail-send): `injectbounce` strips the VERP suffix first and therefore discards, the monitor compares
+the unstripped sender with `#@[]` and refuses the unlink.  (Clause the monitor would need: use the
+VERP base of the sender in the guards of `bounceInject` and `unlinkBounce`.) -/
+theorem C14_daemon_verp_discard_gap (dcfg : Daemon.Cfg) (bcfg : Cfg) (date : Bytes) (m qp : Nat) (bf mess : Bytes) (s : Daemon.St)
+    (hclean : s.clean = none) (ht : (s.msg m).todo = none) (hl : (s.msg m).loc = none) (hrm : (s.msg m).rem = none)
+    (hi : (s.msg m).info = some (70 :: (DBSENDER ++ VERPSUF) ++ [0])) (hb : (s.msg m).bounce = some bf)
+    (hli : (s.msg m).lastInject = false) :
+    (inject bcfg date m qp .none (DBSENDER ++ VERPSUF) (some bf) mess).queued = none ∧
+    (inject bcfg date m qp .none (DBSENDER ++ VERPSUF) (some bf) mess).bounce = none ∧
+    Daemon.accept dcfg s (.unlinkBounce m) = none := by
+  have hd : decideBounce (DBSENDER ++ VERPSUF) = .discard := by decide
+  have hbo : bounceOf bcfg date bf { sender := DBSENDER ++ VERPSUF, rcpts := [], body := mess } = none := by
+    simp [bounceOf, hd]
+  refine ⟨by simp [inject, hbo], by simp [inject, hbo], ?_⟩
+  simp [Daemon.accept, hclean, hi, hb, ht, hl, hrm, hli, DBSENDER, VERPSUF]
+
+/-! #### Non-vacuity at daemon level: one message from sender `s` to `a`, reported `D x`, paragraph
+appended, record marked, channel file closed, `injectbounce` (model) run, message removed -/
+
+def dcfg0 : Daemon.Cfg := { conc := fun _ => 2, lifetime := 1000, route := fun a => (.loc, a), doublebounceto := [112, 64, 100] }
+def bcfg0 : Cfg := { bouncefrom := [77], bouncehost := [104], doublebounceto := [112, 64, 100], vdoms := [] }
+/-- `<a>:` LF `x` LF LF -/
+def para0 : Bytes := [60, 97, 62, 58, 10, 120, 10, 10]
+example : addbounceText bcfg0.tables [97] [120, 10] = para0 := by decide
+/-- a text that contains the bounce file -/
+def body0 : Bytes := [72, 10] ++ para0 ++ [84, 10]
+def pre0 (sender : Bytes) : List Daemon.Ev :=
+  evArrive 7 sender [[97]] ++ evFail 7 [[97]] 0 [120, 10] para0 ++ [.unlinkChan 7 .loc]
+
+/-- what `injectEvents` is for an ordinary sender without faults: `bounceOf`'s envelope and text, then the unlink -/
+example (date mess : Bytes) :
+    injectEvents 7 .none [115] (some para0) (inject bcfg0 date 7 9 .none [115] (some para0) mess)
+      = [.bounceInject 7 true [70, 0, 84, 115, 0] (preamble bcfg0 date [115] true ++ para0 ++ trailer true [115] mess),
+         .unlinkBounce 7] := by
+  have hd : decideBounce [115] = .single [115] := by decide
+  simp [injectEvents, inject, bounceOf, hd, envBytes]
+/-- … with `qmail_close` refusing: a failed injection, no unlink; with `unlink` failing: the injection only -/
+example (date mess : Bytes) :
+    injectEvents 7 .qqClose [115] (some para0) (inject bcfg0 date 7 9 .qqClose [115] (some para0) mess)
+      = [.bounceInject 7 false [] []] := by
+  have hd : decideBounce [115] = .single [115] := by decide
+  simp [injectEvents, inject, bounceOf, hd, closeFails]
+/-- the state reached by `pre0` meets the hypotheses of `C14_daemon_inject_accepted` / `…_unlink_after_inject` -/
+example : ((Daemon.acceptAll dcfg0 {} (pre0 [115])).map fun s =>
+    s.clean.isNone && (s.msg 7).todo.isNone && (s.msg 7).loc.isNone && (s.msg 7).rem.isNone &&
+    (s.msg 7).info == some (70 :: [115] ++ [0]) && (s.msg 7).bounce == some para0) = some true := by decide
+
+/-- the whole life is accepted; one paragraph was appended, it is in exactly one committed bounce, the
+file is gone, and the committed bounce carried exactly the file -/
+example : ((gacceptAll dcfg0 ginit (pre0 [115] ++ [.bounceInject 7 true [70, 0, 84, 115, 0] body0, .unlinkBounce 7] ++ evDone 7)).map fun sg =>
+    (sg.1.msg 7).noted == [(.loc, 0)] && (sg.1.msg 7).inFile == [] && (sg.1.msg 7).bounced == [(.loc, 0)] &&
+    (sg.1.msg 7).bounce == none && (sg.1.msg 7).info == none &&
+    (sg.2 7).committed.map (·.file) == [para0] && (sg.2 7).committed.map (·.paras) == [[(.loc, 0)]] &&
+    (sg.2 7).committed.map (·.parts) == [[para0]]) = some true := by decide
+/-- qmail-queue refuses: the file stays, nothing is committed, the unlink is refused -/
+example : ((gacceptAll dcfg0 ginit (pre0 [115] ++ [.bounceInject 7 false [] []])).map fun sg =>
+    (sg.1.msg 7).inFile == [(.loc, 0)] && (sg.1.msg 7).bounce.isSome && (sg.2 7).committed.length == 0 &&
+    (sg.2 7).attempts.length == 0 && (Daemon.accept dcfg0 sg.1 (.unlinkBounce 7)).isNone) = some true := by decide
+/-- `unlink` fails after a successful injection: the retry injects again (two attempts), exactly one is committed -/
+example : ((gacceptAll dcfg0 ginit (pre0 [115] ++ [.bounceInject 7 true [70, 0, 84, 115, 0] body0,
+      .bounceInject 7 true [70, 0, 84, 115, 0] body0, .unlinkBounce 7])).map fun sg =>
+    (sg.2 7).attempts.length == 2 && (sg.2 7).committed.length == 1 && (sg.1.msg 7).bounced == [(.loc, 0)]) = some true := by decide
+/-- an unlink without a successful injection is not accepted -/
+example : Daemon.acceptAll dcfg0 {} (pre0 [115] ++ [.unlinkBounce 7]) = none := by decide
+/-- … nor an injection of something that does not contain the file, nor one with another envelope -/
+example : Daemon.acceptAll dcfg0 {} (pre0 [115] ++ [.bounceInject 7 true [70, 0, 84, 115, 0] [60, 97, 62, 58, 10]]) = none := by decide
+example : Daemon.acceptAll dcfg0 {} (pre0 [115] ++ [.bounceInject 7 true [70, 0, 84, 116, 0] body0]) = none := by decide
+/-- a `#@[]` message: the paragraph is discarded, `discarded` is set, nothing is committed -/
+example : ((gacceptAll dcfg0 ginit (pre0 DBSENDER ++ [.unlinkBounce 7])).map fun sg =>
+    (sg.2 7).dropped == [(.loc, 0)] && (sg.1.msg 7).discarded && (sg.2 7).committed.length == 0 &&
+    (sg.1.msg 7).bounce == none) = some true := by decide
+/-- an empty sender: the double bounce goes from `#@[]` to doublebounceto -/
+example : (Daemon.acceptAll dcfg0 {} (pre0 [] ++ [.bounceInject 7 true ([70, 35, 64, 91, 93, 0, 84] ++ [112, 64, 100] ++ [0]) body0, .unlinkBounce 7])).isSome = true := by
+  decide
+
+end DaemonLevel
 
 end Nq.Props.C14
